@@ -127,10 +127,10 @@ class CircuitOpDeserializer(OpDeserializer):
                 )
 
         for arg in arg_map.values():
-            if not isinstance(arg, (str, sympy.Symbol, float, int)):
+            if not isinstance(arg, (str, sympy.Basic, float, int)):
                 raise ValueError(
                     'Invalid value parameter type in deserialized CircuitOperation. '
-                    f'Expected str, sympy.Symbol, or number; found {type(arg)}.'
+                    f'Expected str, sympy expression, or number; found {type(arg)}.'
                     f'\nFull arg: {arg}'
                 )
 
